@@ -8,7 +8,8 @@ class ExportConfigFortran(ExportConfig):
 
     def _parse_dtype(self, param, value):
         if isinstance(param, StringType):
-            dtype = f"character(len={len(value):d})"
+            # a default-kind character holds one byte; characters outside ASCII take several bytes in the source
+            dtype = f"character(len={len(value.encode('utf-8')):d})"
         elif isinstance(param, BooleanType):
             dtype = "logical"
         elif isinstance(param, IntegerType):
